@@ -512,3 +512,32 @@ pub fn pos_unwrap_unchecked(x: Option<u32>) -> u32 {
 pub fn neg_checked_expect(x: Option<u32>) -> u32 {
     x.expect("contract")
 }
+
+// ---------------------------------------------------------------- R6.11 a consumed writer is flushed; R12.11 field-wise rebuild
+pub fn pos_consumed_writer_not_flushed<W: std::io::Write>(mut w: W, lines: &[&str]) -> std::io::Result<()> {
+    for l in lines {
+        w.write_all(l.as_bytes())?;
+    }
+    Ok(())
+}
+pub fn neg_consumed_writer_flushed<W: std::io::Write>(mut w: W, lines: &[&str]) -> std::io::Result<()> {
+    for l in lines {
+        w.write_all(l.as_bytes())?;
+    }
+    w.flush()?;
+    Ok(())
+}
+pub struct Opts<L> {
+    pub loader: L,
+    pub native: bool,
+    pub rdf_type: bool,
+    pub spaces: u16,
+}
+impl<L> Opts<L> {
+    pub fn pos_with_loader_crossed<M>(self, loader: M) -> Opts<M> {
+        Opts { loader, native: self.native, rdf_type: self.native, spaces: self.spaces }
+    }
+    pub fn neg_with_loader<M>(self, loader: M) -> Opts<M> {
+        Opts { loader, native: self.native, rdf_type: self.rdf_type, spaces: self.spaces }
+    }
+}
